@@ -237,3 +237,17 @@ FAMILIES["C06"] = dict(
                 "Free-running goroutines (2..32) looping over generated programs with goroutine-specific inputs, alongside Compile and package-level registration, run in a -race build: every distinct outcome is validated against the sequential semantics and any race-detector report is a violation."),
     level_note="Data-race freedom in the sense of the Go memory model is observed by the race detector under these schedules and loads; it is not derived from the TLA+ model (DESIGN.md section 7). The gate hook is build-tag guarded.",
 )
+
+
+FAMILIES["C19"] = dict(
+    famtag="C19",
+    trace_module="TraceDate",
+    g=[G("MC_C19", "MC_C19_quick.cfg", "MC_C19_thorough.cfg")],
+    v=[dict(profile="dates", n={"quick": 40000, "thorough": 3400000}), dict(profile="clock", n={"quick": 300, "thorough": 3000})],
+    rule="a case is one $fromMillis / $toMillis call (instant, picture, offset); non-trivial when the specification pins the rendered fields or the parsed instant; distinct by arguments",
+    level_text=("The proleptic Gregorian calendar (Civil/DaysFromCivil by the 400/100/4-year cycle), weekday, day of year, ISO week (Thursday rule), the 12-hour clock 12,1..11, AM/PM, English names, width/ordinal/name modifiers, fraction digits, offsets and the default ISO-8601 picture are a TLA+ specification (JLibDate) of what every picture component must show; "
+                "$toMillis on the default layouts is its inverse (ParseIso). TLC checks Civil/DaysFromCivil inversion, known ISO-week edge years and weekdays on the specification and enumerates 73 component markers x 33 edge instants (epoch, leap days, year boundaries, ISO-week edge years, years 1000 and 9999, the 64-bit-nanosecond limits) x times of day x offsets "
+                "(-1400..+1400, every 15 minutes in thorough), the round trip through three pictures, malformed pictures and offsets; a sweep over the days 1000-01-01..9999-12-31 (every 97th day quick, every day thorough) checks year/month/day/weekday/day-of-year/ISO-week and the round trip; every call goes through the real Compile/Eval and is validated by TLC (TraceDate). "
+                "The clock clause ($now/$millis constant within one evaluation and inside the Eval bracket) is checked by the clock events of the same trace."),
+    level_note=_SEM_NOTE + " Abbreviated names under a width modifier are checked relationally (an abbreviation of the English name that fits the width); [F] as a number, [w], [C], [E] and non-decimal presentations are outside JLibDate (the specification abstains).",
+)
